@@ -67,6 +67,7 @@ type Snap struct {
 	StoredBad          []string
 	Funds              map[string]spice.Melange
 	FundsRaw           map[string][]byte
+	StrayKeys          []string
 	Index              map[Hash][]byte
 	Leaves             []string
 	Roots              []string
@@ -90,7 +91,7 @@ func idHash(id string) (Hash, bool) {
 func convertSnap(node int, r accountant.VerifSnap) *Snap {
 	s := &Snap{Node: node, At: simrt.Now(), Live: map[Hash]*SVertex{}, LiveIDs: map[string]*SVertex{}, Stored: map[Hash]*SVertex{},
 		Funds: r.Funds, FundsRaw: r.FundsRaw, Index: r.Index, Leaves: r.Leaves, Roots: r.Roots, Trusted: map[string]bool{},
-		Genesis: r.Genesis, Loaded: r.Loaded, Weight: r.Weight, Throughput: r.Throughput, Parked: r.Parked}
+		Genesis: r.Genesis, Loaded: r.Loaded, Weight: r.Weight, Throughput: r.Throughput, Parked: r.Parked, StrayKeys: r.StrayKeys}
 	for _, t := range r.Trusted {
 		s.Trusted[t] = true
 	}
